@@ -548,7 +548,7 @@ def case_aead_decrypt_session(m, layout, alg, adlen, mlen):
     return None
 
 
-def case_forgery_wipe(m, layout, fam, alg, adlen, mlen, inplace):
+def case_forgery_wipe(m, layout, fam, alg, adlen, mlen, inplace, genuine=False):
     """a packet whose tag is independent of the computed one is rejected with
     -1 and the plaintext buffer holds zeros afterwards - for every one-shot
     decrypt family, with separate buffers and with the plaintext decrypted
@@ -566,7 +566,7 @@ def case_forgery_wipe(m, layout, fam, alg, adlen, mlen, inplace):
     else:
         wc, wt = R.spec.aead_encrypt(alg, SB("K", klen), SB("N", 16), SB("A", adlen), SB("M", mlen))
     cin = R.out(mlen + 16)
-    R.mc.store(cin, tuple(wc) + SB("F", 16))
+    R.mc.store(cin, tuple(wc) + (tuple(wt) if genuine else SB("F", 16)))
     mo = cin if inplace else R.buf("PT", mlen)
     ml = R.out(8)
     key = K
@@ -578,6 +578,15 @@ def case_forgery_wipe(m, layout, fam, alg, adlen, mlen, inplace):
         R.call(prefix + "_init", key, K)
     r = to_int(R.call(prefix + "_decrypt", mo, ml, cin, mlen + 16, A, adlen, N, key))
     how = "decrypting over the ciphertext (m == c)" if inplace else "separate buffers"
+    if genuine:
+        # the untampered packet: accepted, and the plaintext comes out - also when it is written over the ciphertext
+        # (two-pass modes must authenticate / generate the keystream in an order that survives m == c)
+        if r != 0:
+            return ("inverse", "%s: the genuine ciphertext is rejected (returned %s)" % (how, r))
+        d = modes.first_diff(R.read(mo, mlen), SB("M", mlen))
+        if d:
+            return ("inverse", "%s: decrypt(encrypt(m)) differs from m at %s" % (how, d))
+        return None
     if r != 0xffffffff:
         return ("forgery", "%s: an independent tag is not rejected with -1 (returned %s)" % (how, r))
     got = R.read(mo, mlen)
